@@ -442,8 +442,8 @@ func runC20(c *Ctx, r *Report) {
 	}
 	// R7: the completion callback asks the trie about exactly the text before the cursor
 	{
-		cb := c.SSAFn(c.Fn("repl", "AutoComplete.autoCompleteCallback"))
 		prefixAll := c.Fn("trie", "Trie.PrefixAll")
+		cb, _, _ := c.completionCallback()
 		n7 := 0
 		for _, call := range callsIn(cb, prefixAll) {
 			n7++
@@ -652,12 +652,11 @@ func (c *Ctx) checkRecordInserts(r *Report, rule string) {
 // concatenation whose last operand is line[pos:] (the text after the cursor), line and pos being the
 // callback's own parameters.
 func (c *Ctx) checkCompletionKeepsTail(r *Report, rule string) {
-	fn := c.SSAFn(c.Fn("repl", "AutoComplete.autoCompleteCallback"))
-	if fn == nil || len(fn.Params) < 4 {
-		r.Undecided("%s: AutoComplete.autoCompleteCallback(t, line, pos) not found", rule)
+	fn, line, pos := c.completionCallback()
+	if fn == nil || line == nil || pos == nil {
+		r.Undecided("%s: the completion callback (the function of package repl that queries Trie.PrefixAll) was not found", rule)
 		return
 	}
-	line, pos := fn.Params[2], fn.Params[3]
 	n := 0
 	for _, b := range fn.Blocks {
 		ret, ok := b.Instrs[len(b.Instrs)-1].(*ssa.Return)
@@ -680,4 +679,32 @@ func (c *Ctx) checkCompletionKeepsTail(r *Report, rule string) {
 	if n == 0 {
 		r.Undecided("%s: no successful return found in the completion callback", rule)
 	}
+}
+
+// completionCallback: the function of package repl (a method or a closure) that queries Trie.PrefixAll, with
+// its line (string) and cursor position (int) parameters. Located by what it does, not by its name.
+func (c *Ctx) completionCallback() (*ssa.Function, *ssa.Parameter, *ssa.Parameter) {
+	prefixAll := c.Fn("trie", "Trie.PrefixAll")
+	for _, fn := range c.ModuleSSAFuncs() {
+		top := fn
+		for top.Parent() != nil {
+			top = top.Parent()
+		}
+		if top.Pkg == nil || shortPkg(top.Pkg.Pkg) != "repl" || len(callsIn(fn, prefixAll)) == 0 {
+			continue
+		}
+		var line, pos *ssa.Parameter
+		for _, p := range fn.Params {
+			if bt, ok := p.Type().Underlying().(*types.Basic); ok {
+				if bt.Kind() == types.String && line == nil {
+					line = p
+				}
+				if bt.Kind() == types.Int && pos == nil {
+					pos = p
+				}
+			}
+		}
+		return fn, line, pos
+	}
+	return nil, nil, nil
 }
